@@ -1,6 +1,8 @@
 #!/bin/bash
 # regenerates the files derived from /repo's sources (after /repo was restored to the clean tree)
 cd /verif
+# the translators themselves may have changed since they were last built
+(cd harness && GOFLAGS=-mod=mod GOPROXY=off GOSUMDB=off GOTOOLCHAIN=local go build -o gox/gox.new ./gox && mv gox/gox.new gox/gox) >/dev/null 2>&1
 ./harness/constx/constx /repo coq/Model/Consts.v build/consts.json >/dev/null 2>&1
 ./harness/chainx/chainx /repo coq/Model/Chains.v
 ./harness/gox/gox /repo coq/Model/GoFns.v coq/Model/SrcText.v build/srctext.json coq/Model/GoData.v coq/Model/GoGrad.v coq/Model/GoWrap.v coq/Model/GoComp.v
